@@ -271,20 +271,50 @@ func (w warp) inv(v float64) float64 {
 
 // ---------------------------------------------------------------------------
 // adaptive integration of (1/4pi) * integral of f over a (v, phi) rectangle
+//
+// The integrand is a black box, but it is only piecewise smooth: a cos^alpha lobe is cut off at its equator
+// (with a one-sided x^alpha behaviour that is practically a step for small alpha), a cone lobe at its rim.
+// These loci are circles {w : axis.w = kappa} on the sphere, known from the reference lobes.  A tensor
+// Gauss rule (and any error estimate derived from it) is blind to a sliver that such a circle cuts off a
+// cell between two nodes, so the basic rule is an iterated integral that is split exactly where the circles
+// are:
+//   * the outer variable v is split at the latitudes where a circle is tangent to a parallel and where it
+//     crosses the two meridians bounding the rectangle (between those, the number of crossings of a parallel
+//     with every circle is constant, so the inner integral is a smooth function of v);
+//   * for every outer node the inner variable phi is split at the crossings of that parallel with the circles;
+//   * on every piece a Gauss-Legendre rule is used, with the algebraic substitution t = L*u^3 at the ends that
+//     are such split points: an end behaviour t^alpha (alpha >= 0) of the inner integrand, or (t^(alpha+1/2),
+//     t^(alpha+1)) of the outer one, becomes u^(3 alpha + 2) or smoother.
+// All positions are closed-form spherical trigonometry; nothing depends on where nodes happen to fall.
 
 var gl4x = [4]float64{-0.8611363115940526, -0.3399810435848563, 0.3399810435848563, 0.8611363115940526}
 var gl4w = [4]float64{0.3478548451374538, 0.6521451548625461, 0.6521451548625461, 0.3478548451374538}
+
+var gl6x = [6]float64{-0.9324695142031521, -0.6612093864662645, -0.2386191860831969, 0.2386191860831969, 0.6612093864662645, 0.9324695142031521}
+var gl6w = [6]float64{0.1713244923791704, 0.3607615730481386, 0.4679139345726910, 0.4679139345726910, 0.3607615730481386, 0.1713244923791704}
 
 type hint struct {
 	dir   kit.V3
 	sigma float64
 }
 
+// circle is a locus {w : axis.w = kappa} across which the integrand is not smooth.
+type circle struct {
+	axis  kit.V3
+	kappa float64
+	// in the current frame: axis = c*a + rho*(cos(psi) e1 + sin(psi) e2)
+	c, rho, psi float64
+	vt          [2]float64 // warped latitudes of the two parallels the circle is tangent to
+}
+
+type node struct{ x, w float64 }
+
 type integ struct {
 	f        func(kit.V3) float64
 	fr       frame
 	wp       warp
 	hints    []hint
+	circles  []circle
 	avoid    []kit.V3 // axes of delta lobes: nodes are moved off them
 	evals    int
 	maxEvals int
@@ -293,6 +323,9 @@ type integ struct {
 	bad      bool    // integrand returned a non-finite or negative value
 	badAt    kit.V3
 	badVal   float64
+
+	crit, brk    []float64 // scratch
+	outer, inner []node
 }
 
 const avoidRadius = 6e-4 // rad; the delta caps of the library have an angular radius of 1.4e-4
@@ -322,19 +355,159 @@ func (q *integ) eval(w kit.V3) float64 {
 	return v
 }
 
-func (q *integ) gl(v0, v1, p0, p1 float64) float64 {
-	var sum float64
-	hv, hp := (v1-v0)/2, (p1-p0)/2
-	for i := 0; i < 4; i++ {
-		y := q.wp.inv(v0 + hv*(1+gl4x[i]))
-		jac := 1 / (4 * math.Pi * q.wp.m(y))
-		var row float64
-		for j := 0; j < 4; j++ {
-			row += gl4w[j] * q.eval(q.fr.dir(y, p0+hp*(1+gl4x[j])))
+func ylat(theta float64) float64 { s := math.Sin(theta / 2); return 2 * s * s } // 1 - cos(theta), no cancellation
+
+// setFrame fixes the frame and the warp and expresses the circles in them.
+func (q *integ) setFrame(fr frame, wp warp) {
+	q.fr, q.wp = fr, wp
+	for i := range q.circles {
+		k := &q.circles[i]
+		k.c = k.axis.Dot(fr.a)
+		t1, t2 := k.axis.Dot(fr.e1), k.axis.Dot(fr.e2)
+		k.rho = math.Hypot(t1, t2)
+		k.psi = math.Atan2(t2, t1)
+		beta := math.Atan2(k.rho, k.c)                          // angle between the frame axis and the circle's axis
+		gamma := math.Acos(math.Max(-1, math.Min(1, k.kappa))) // angular radius of the circle
+		th1, th2 := math.Abs(beta-gamma), beta+gamma
+		if th2 > math.Pi {
+			th2 = 2*math.Pi - th2
 		}
-		sum += gl4w[i] * row * jac
+		k.vt = [2]float64{wp.M(ylat(th1)), wp.M(ylat(th2))}
 	}
-	return sum * hv * hp
+}
+
+// meridianCrossings appends the warped latitudes at which circle k crosses the meridian phi.
+func (q *integ) meridianCrossings(k *circle, phi float64, out []float64) []float64 {
+	// on the meridian: axis.w = c cos(theta) + rho C sin(theta) with C = cos(phi - psi)
+	b := k.rho * math.Cos(phi-k.psi)
+	r := math.Hypot(k.c, b)
+	if !(r > 0) || math.Abs(k.kappa) > r {
+		return out
+	}
+	th0 := math.Atan2(b, k.c)
+	d := math.Acos(math.Max(-1, math.Min(1, k.kappa/r)))
+	for _, th := range [2]float64{th0 + d, th0 - d} {
+		if th > math.Pi {
+			th -= 2 * math.Pi
+		} else if th <= -math.Pi {
+			th += 2 * math.Pi
+		}
+		if th > 0 && th < math.Pi {
+			out = append(out, q.wp.M(ylat(th)))
+		}
+	}
+	return out
+}
+
+// parallelCrossings appends the azimuths in (p0, p1) at which circle k crosses the parallel y.
+func parallelCrossings(k *circle, y, p0, p1 float64, out []float64) []float64 {
+	s := math.Sqrt(math.Max(0, y*(2-y))) * k.rho
+	if !(s > 0) {
+		return out
+	}
+	qv := (k.kappa - (1-y)*k.c) / s
+	if !(qv > -1 && qv < 1) {
+		return out
+	}
+	h := math.Acos(qv)
+	for _, ph := range [2]float64{k.psi + h, k.psi - h} {
+		// the representative in [p0, p0 + 2pi)
+		ph -= 2 * math.Pi * math.Floor((ph-p0)/(2*math.Pi))
+		if ph > p0 && ph < p1 {
+			out = append(out, ph)
+		}
+	}
+	return out
+}
+
+const (
+	mergeFrac = 1e-12 // split points closer than this fraction of the interval to an end coincide with it
+	nearFrac  = 0.05  // an end is treated as singular when a split point lies within this fraction outside it
+)
+
+// pieceNodes appends the nodes of a Gauss-Legendre rule on [a, b]; ga/gb: graded towards that end.
+func pieceNodes(a, b float64, ga, gb bool, out []node) []node {
+	switch {
+	case !(b > a):
+		return out
+	case ga && gb:
+		m := (a + b) / 2
+		return pieceNodes(m, b, false, true, pieceNodes(a, m, true, false, out))
+	case ga || gb:
+		l := b - a
+		for i := 0; i < 6; i++ {
+			u := (1 + gl6x[i]) / 2
+			t, w := l*u*u*u, l*3*u*u*gl6w[i]/2
+			if ga {
+				out = append(out, node{a + t, w})
+			} else {
+				out = append(out, node{b - t, w})
+			}
+		}
+		return out
+	}
+	h := (b - a) / 2
+	for i := 0; i < 4; i++ {
+		out = append(out, node{a + h*(1+gl4x[i]), h * gl4w[i]})
+	}
+	return out
+}
+
+// splitNodes builds the composite rule on [lo, hi] that is split at the points of sing inside the interval
+// and graded towards every split point (also one just outside an end).  sing is sorted in place.
+func splitNodes(lo, hi float64, sing []float64, out []node) []node {
+	out = out[:0]
+	if len(sing) == 0 {
+		return pieceNodes(lo, hi, false, false, out)
+	}
+	sort.Float64s(sing)
+	l := hi - lo
+	glo, ghi := false, false
+	a := lo
+	ga := false
+	for _, s := range sing {
+		switch {
+		case s < lo-nearFrac*l || s > hi+nearFrac*l:
+		case s <= lo+mergeFrac*l:
+			glo = true
+		case s >= hi-mergeFrac*l:
+			ghi = true
+		default:
+			if s-a <= mergeFrac*l {
+				continue // duplicate
+			}
+			out = pieceNodes(a, s, ga || (a == lo && glo), true, out)
+			a, ga = s, true
+		}
+	}
+	return pieceNodes(a, hi, ga || (a == lo && glo), ghi, out)
+}
+
+func (q *integ) gl(v0, v1, p0, p1 float64) float64 {
+	q.crit = q.crit[:0]
+	for i := range q.circles {
+		k := &q.circles[i]
+		q.crit = append(q.crit, k.vt[0], k.vt[1])
+		q.crit = q.meridianCrossings(k, p0, q.crit)
+		q.crit = q.meridianCrossings(k, p1, q.crit)
+	}
+	q.outer = splitNodes(v0, v1, q.crit, q.outer)
+	var sum float64
+	for _, o := range q.outer {
+		y := q.wp.inv(o.x)
+		jac := 1 / (4 * math.Pi * q.wp.m(y))
+		q.brk = q.brk[:0]
+		for i := range q.circles {
+			q.brk = parallelCrossings(&q.circles[i], y, p0, p1, q.brk)
+		}
+		q.inner = splitNodes(p0, p1, q.brk, q.inner)
+		var row float64
+		for _, n := range q.inner {
+			row += n.w * q.eval(q.fr.dir(y, n.x))
+		}
+		sum += o.w * row * jac
+	}
+	return sum
 }
 
 // forced reports whether the rectangle must be subdivided because a hinted lobe is
@@ -444,7 +617,7 @@ func (g grid) cellOf(w kit.V3) int {
 
 // masses integrates f over every cell: mass[c] = (1/4pi) * integral over the cell.
 func (g grid) masses(q *integ, tol float64) (mass, errs []float64) {
-	q.fr, q.wp = g.fr, g.wp
+	q.setFrame(g.fr, g.wp)
 	n := g.cells()
 	mass, errs = make([]float64, n), make([]float64, n)
 	for i := 0; i+1 < len(g.vedges); i++ {
